@@ -8,10 +8,11 @@ import Cellml.Props.C01
     every Python `set` iteration that exists in the code (harness/setscan.py lists them from the source text) made an
     explicit ADVERSARIAL ORDER (`Adv`; `Adv.Fair`: the adversary permutes, nothing else).
 
-    Part 1 (hash seeds).   `load_order_independent`, `queries_order_independent`: nothing the ordered API returns
-      depends on the adversary. The code BEFORE the fix is kept as `transformConstantsSet` / `loadSet` with the proved
-      counterexample `transform_constants_set_order_dependent`; two order dependences that are still in the code are
-      reproduced by the model and proved: `graph_nodes_order_dependent`, `derived_depends_on_equation_order`.
+    Part 1 (hash seeds).   `load_order_independent`, `queries_order_independent`, `graph_nodes_order_independent`:
+      nothing the ordered API returns — nor the insertion order of `Model.graph` — depends on the adversary. The code
+      BEFORE the two fixes is kept as `transformConstantsSet` / `loadSet` and `graphSet` / `graphNodesSet` with the
+      proved counterexamples `transform_constants_set_order_dependent`, `graph_nodes_set_order_dependent`; one order
+      dependence that is still in the code is reproduced by the model and proved: `derived_depends_on_equation_order`.
     Part 2 (sorting).      `sorted_queries_deterministic`, `order_added_distinct`, `lexTopo_insertion_independent`.
     Part 3 (permutations). `variables_follow_document`, `equations_follow_document` say exactly which orders follow
       the document; `element_perm_*` say what does not change when order-insensitive elements are permuted. -/
@@ -119,9 +120,31 @@ theorem queries_order_independent (cx : Ctx) (π π' : Adv) (hπ : π.Fair) (hπ
             obtain ⟨res, hres⟩ := eqsfor_ok_transfer (system_lhs cx π' π obs F) hs' h'
             rw [h] at hres; cases hres
 
+/-- **The graph itself is independent of the iteration order of the sets**: `Model.graph` sorts the references of
+    every equation by `str` before it walks them (since the `fix:` commit "graph nodes in a reproducible order"), so
+    for two fair adversaries at `find_variables_and_derivatives` the property returns the SAME graph — the same node
+    list in the same (networkx insertion) order, the same edge list in the same order — or raises the same error.
+    Hypothesis: `str` keys tell the references of any one equation apart (`RefKeys`; it follows from the `hkey` of
+    `queries_order_independent` when the graph builds: `refKeys_of_graph`). -/
+theorem graph_order_independent (cx : Ctx) (π π' : Adv) (hπ : π.Fair) (hπ' : π'.Fair)
+    (obs : FlatEq → List (Lhs VRef)) (F : Flat) (hk : RefKeys cx F) :
+    graph cx π obs F = graph cx π' obs F ∧ graphNodes cx π obs F = graphNodes cx π' obs F := by
+  have h := _root_.C15.graph_order_independent (obs := obs) hπ hπ' hk
+  exact ⟨h.symm, by simp only [graphNodes, h]⟩
+
+/-- **`list(Model.graph.nodes)` is the same list for every iteration order** (or refused alike), under the very
+    hypothesis of `queries_order_independent`: the node order is a function of `Model.equations` alone. -/
+theorem graph_nodes_order_independent (cx : Ctx) (π π' : Adv) (hπ : π.Fair) (hπ' : π'.Fair)
+    (obs : FlatEq → List (Lhs VRef)) (F : Flat)
+    (hkey : ∀ a b, (C09.hasEq (system cx π obs F) a = true ∨ C09.isStateOrFree (system cx π obs F) a = true) →
+      (C09.hasEq (system cx π obs F) b = true ∨ C09.isStateOrFree (system cx π obs F) b = true) →
+      cx.key a = cx.key b → a = b) :
+    (graphNodes cx π obs F).toOption = (graphNodes cx π' obs F).toOption :=
+  graphNodes_order_independent hπ hπ' hkey
+
 /-- **The same document yields the same model, whatever order the runtime gives its sets.** For a document that
     loads: the flat model (`variables()`, `equations`, initial values) is the same for every adversary, and so is the
-    answer of every ordered query. `Declared` and `OdeOnce` are no longer assumed: the loader guarantees them
+    answer of every ordered query, and so is the node list of `Model.graph`. `Declared` and `OdeOnce` are no longer assumed: the loader guarantees them
     (`load_declared`, `load_odeOnce`: `_check_duplicate_definitions`, the symbol lookup of the transpiler). What is
     left as hypothesis is that the numbering of nodes tells declared variables apart and that `str` keys are pairwise
     distinct (variable names are unique, `Model.graph` asserts it for left-hand sides). -/
@@ -134,9 +157,11 @@ theorem same_document_same_model (doc : Doc) (π π' : Adv) (hπ : π.Fair) (hπ
     load π' doc = .ok F ∧
     (getDerivatives cx π obs F).toOption = (getDerivatives cx π' obs F).toOption ∧
     (getDerivedQuantities cx π obs F).toOption = (getDerivedQuantities cx π' obs F).toOption ∧
-    ∀ vars recurse strip, (getEquationsFor cx π obs F vars recurse strip).toOption =
-      (getEquationsFor cx π' obs F vars recurse strip).toOption :=
-  ⟨h, queries_order_independent cx π π' hπ hπ' obs F (load_declared cx h) (load_odeOnce cx h hnum) hkey⟩
+    (∀ vars recurse strip, (getEquationsFor cx π obs F vars recurse strip).toOption =
+      (getEquationsFor cx π' obs F vars recurse strip).toOption) ∧
+    (graphNodes cx π obs F).toOption = (graphNodes cx π' obs F).toOption :=
+  have q := queries_order_independent cx π π' hπ hπ' obs F (load_declared cx h) (load_odeOnce cx h hnum) hkey
+  ⟨h, q.1, q.2.1, q.2.2, graph_nodes_order_independent cx π π' hπ hπ' obs F hkey⟩
 
 /-- `get_state_variables` does not go through the graph at all -/
 theorem states_order_independent (cx : Ctx) (π π' : Adv) (doc : Doc) (F F' : Flat)
@@ -144,7 +169,7 @@ theorem states_order_independent (cx : Ctx) (π π' : Adv) (doc : Doc) (F F' : F
   have : (Except.ok F : Except Err Flat) = .ok F' := h.symm.trans ((load_order_independent π π' doc).trans h')
   cases this; rfl
 
-/-! ### Two order dependences that are still in the code, reproduced by the model -/
+/-! ### The graph before its fix, and one order dependence that is still in the code, reproduced by the model -/
 
 /-- a small flat model: `dx/dt = x + y`, `dy/dt = a`, `z = a + a`, constant `a = 3` (what `load` gives for one
     component with variables t, x, y, z, a) -/
@@ -159,15 +184,37 @@ def demoF : Flat :=
 
 def demoCx : Ctx := ctxOf demoF
 
-/-- KNOWN FINDING `hashseed:graph_nodes`. The node LIST of `Model.graph` does depend on the iteration order of
-    `find_variables_and_derivatives`: the states `x`, `y` (nodes 1, 2) referenced by `dx/dt = x + y` become nodes
-    in the order the set hands them out. (Nodes: t x y z a = 0 1 2 3 4, dx/dt = 5, dy/dt = 6.) -/
-theorem graph_nodes_order_dependent :
+/-- FIXED FINDING `hashseed:graph_nodes`, the code BEFORE the fix (`graphNodesSet`: the references walked in set
+    order). The node LIST of `Model.graph` did depend on the iteration order of `find_variables_and_derivatives`: the
+    states `x`, `y` (nodes 1, 2) referenced by `dx/dt = x + y` became nodes in the order the set handed them out.
+    (Nodes: t x y z a = 0 1 2 3 4, dx/dt = 5, dy/dt = 6.) -/
+theorem graph_nodes_set_order_dependent :
+    Adv.ident.Fair ∧ Adv.rev.Fair ∧
+    graphNodesSet demoCx Adv.ident obsAll demoF = .ok [5, 6, 3, 4, 1, 2, 0] ∧
+    graphNodesSet demoCx Adv.rev obsAll demoF = .ok [5, 6, 3, 4, 2, 1, 0] := by
+  refine ⟨⟨fun _ => .refl _, fun _ _ => .refl _, fun _ => .refl _⟩,
+    ⟨fun l => l.reverse_perm, fun _ l => l.reverse_perm, fun l => l.reverse_perm⟩, ?_, ?_⟩ <;> decide +kernel
+
+/-- AFTER the fix (`graphNodes`: `sorted(…, key=str)`): one list under every adversary — `c$x` before `c$y` — an
+    instance of `graph_nodes_order_independent`, evaluated -/
+example :
     graphNodes demoCx Adv.ident obsAll demoF = .ok [5, 6, 3, 4, 1, 2, 0] ∧
-    graphNodes demoCx Adv.rev obsAll demoF = .ok [5, 6, 3, 4, 2, 1, 0] := by
+    graphNodes demoCx Adv.rev obsAll demoF = .ok [5, 6, 3, 4, 1, 2, 0] ∧
+    graphNodes demoCx (Adv.rot 1) obsAll demoF = .ok [5, 6, 3, 4, 1, 2, 0] ∧
+    graph demoCx Adv.rev obsAll demoF = graph demoCx Adv.ident obsAll demoF := by
   decide +kernel
 
-/-- … while every ordered query answers the same (instances of `queries_order_independent`, evaluated) -/
+/-- the hypothesis of `graph_order_independent` holds of it -/
+example : RefKeys demoCx demoF := by
+  intro e he
+  simp only [demoF, List.mem_cons, List.not_mem_nil, or_false] at he
+  rcases he with rfl | rfl | rfl | rfl <;> decide +kernel
+
+/-- why the keys must be distinct: Python's `sorted` is stable, two references with the same `str` stay in the order
+    the set gave them -/
+example : C09.sortStr (fun _ => "k") [1, 2] = [1, 2] ∧ C09.sortStr (fun _ => "k") [2, 1] = [2, 1] := by decide
+
+/-- every ordered query answers the same, too (instances of `queries_order_independent`, evaluated) -/
 example :
     getDerivatives demoCx Adv.ident obsAll demoF = .ok [5, 6] ∧ getDerivatives demoCx Adv.rev obsAll demoF = .ok [5, 6] ∧
     getDerivedQuantities demoCx Adv.ident obsAll demoF = .ok [3] ∧
@@ -250,7 +297,8 @@ theorem lexTopo_insertion_independent (key : Node → String) (g g' : C09.Graph)
     C09.lexTopo key g' = C09.lexTopo key g :=
   Cellml.Props.C09.lexTopo_insertion_independent key g g' hnodes hedges hinj
 
-/-- … so the node list of the graph may be in any order (`graph_nodes_order_dependent`) without consequence -/
+/-- … so the node list of the graph could be in any order (as it was before the fix:
+    `graph_nodes_set_order_dependent`) without consequence for `get_equations_for` -/
 example : C09.lexTopo demoCx.key ⟨[5, 6, 3, 4, 1, 2, 0], [(1, 5), (2, 5), (4, 6), (4, 3)]⟩ =
     C09.lexTopo demoCx.key ⟨[5, 6, 3, 4, 2, 1, 0], [(2, 5), (1, 5), (4, 6), (4, 3)]⟩ := by decide +kernel
 
